@@ -1,6 +1,9 @@
 package simrt
 
 import (
+	"net/http"
+	"io"
+	"bufio"
 	"errors"
 	"strconv"
 	"bytes"
@@ -623,7 +626,7 @@ func checkC11Client(k *Kernel, cov *Coverage) *Violation {
 				if r := k.W.RPC(c.Op.RPC); r != nil {
 					verb = r.Verb
 				}
-				if complete, _ := last.s2c.responseComplete(verb); !complete && last.s2c.total > 0 {
+				if last.s2c.total > 0 && framedButShort(last.s2c, verb) {
 					return &Violation{Class: "typed-error-from-incomplete-response", Signature: sig("typed-error-from-incomplete-response", ""),
 						Detail: fmt.Sprintf("op %d %s: link delivered %d of %d response bytes (%s) yet the client returned the typed error %T %v", c.Op.ID, c.Op.RPC, last.s2c.delivered, last.s2c.total, connFault(last), c.Err, c.Err)}
 				}
@@ -831,4 +834,25 @@ func bigPadded(body []byte, size int) []byte {
 		out = append(out, rec...)
 	}
 	return append(out, body...)
+}
+
+// framedButShort: the delivered bytes hold a complete response head whose framing
+// (Content-Length or chunked encoding) announces more body than arrived. Only then can a
+// client know that the body is incomplete; a close-delimited body that is cut short looks
+// complete to every client.
+func framedButShort(l *link, method string) bool {
+	d := l.sent
+	if l.delivered < len(d) {
+		d = d[:l.delivered]
+	}
+	req, _ := http.NewRequest(method, "http://"+baseHost+"/", nil)
+	resp, err := http.ReadResponse(bufio.NewReader(bytes.NewReader(d)), req)
+	if err != nil {
+		return false
+	}
+	if resp.ContentLength < 0 && len(resp.TransferEncoding) == 0 {
+		return false
+	}
+	_, err = io.Copy(io.Discard, resp.Body)
+	return err != nil
 }
